@@ -211,6 +211,7 @@ def replay_transition(case) -> List[Tuple[str, Dict[str, Any], str]]:
     pre_ok = not within_clamp(state["graph"]["edges"], lo, hi)
 
     def F(clause, msg, **sig):
+        sig.setdefault("cause", "records-differ" if clause == "MaintenanceRecords" else "unspecified")
         fails.append((clause, dict(sig), msg))
 
     # ---- run the operation -----------------------------------------------------------------
